@@ -20,8 +20,10 @@ THEOREMS = ["LNN.C14_get_missing",
             "LNN.C14_axiom_start",
             "LNN.C14_closed_stays",
             "LNN.C14_axiom_invariant",
-            "LNN.C14_query_unknown"]
-MODULES = ["LnnVerif.Props.C14"]
+            "LNN.C14_query_unknown",
+            "LNN.C15_resetWorld_reads_world",      # reset_world: stated next to the reset_bounds theorems they build on
+            "LNN.C15_resetWorld_then_reset"]
+MODULES = ["LnnVerif.Props.C14", "LnnVerif.Props.C15"]
 
 
 def judge_store(j):
@@ -34,7 +36,7 @@ def judge_store(j):
     elif j["kind"] == "reset":
         # after reset_bounds every row that was never asserted reads exactly the world default
         for g, b in j["table"].items():
-            if g not in j["asserted"] and b != j["world"]:
+            if g not in j["asserted"] and g not in j.get("exempt", ()) and b != j["world"]:
                 return {"problem": "a row introduced by inference does not carry the world default as its data", "formula": j["target"],
                         "grounding": g, "got": b, "world": j["world"]}
     return None
@@ -68,6 +70,7 @@ def judge_fol(rec):
 def run(rep, tier, seed):
     n = size(tier, 120, 2500)
     progs = [fol.gen_store_program(random.Random(sub_seed(seed, "store14", k)), malformed_p=0.1) for k in range(n)]
+    progs = streams.corpus_programs("C14") + progs          # minimised past failures run first
     recs, first_dis = streams.run_fol_stream(rep, "store", progs, None, fn="run_store_program")
     for r in recs:
         if "crash" in r:
